@@ -41,7 +41,7 @@ def plan(tier, seed):
     n = 8 if tier == "quick" else 400
     modes_q = [["none", "slim"], ["none-E", "strict"], ["none", "dev"], ["slim", "yes"]]
     cases = [{"seed": common.subseed(seed, "c13", i), "modes": modes_q[i % 4] if tier == "quick" else ["none", "none-E", "slim", "dev", "strict", "yes"]} for i in range(n)]
-    cases += [{"seed": common.subseed(seed, "c13h", i), "helper": True, "n": 60 if tier == "quick" else 400} for i in range(1 if tier == "quick" else 8)]
+    cases += [{"seed": common.subseed(seed, "c13h", i), "helper": True, "n": 60 if tier == "quick" else 400, "_first": i < 2} for i in range(1 if tier == "quick" else 8)]
     return cases
 
 
